@@ -229,6 +229,8 @@ def _eq_any(item, keys):
 
 
 def format_value(interp, val, spec, conversion):
+    if isinstance(val, FStr) and spec == "" and conversion in (-1, ord("s")):
+        return val  # a string formatted without a spec is itself: nested f-strings flatten
     if spec == "" and conversion == -1:
         return FStr([val])  # plain {value}: the part *is* the value
     return FStr([("fmt", val, spec, conversion)])
@@ -1802,6 +1804,49 @@ def _dict_get(interp, d, args, kwargs):
 
 
 METHOD_MODELS[(dict, "get")] = _dict_get
+
+
+def _str_format(interp, template, args, kwargs):
+    """template.format(*args, **kwargs) with symbolic arguments: the same parts an f-string with the same replacement
+    fields produces (literal text, plain values, ("fmt", value, spec, conversion) for fields with a spec)."""
+    import string
+
+    parts, auto = [], 0
+    for literal, field, spec, conv in string.Formatter().parse(template):
+        if literal:
+            parts.append(literal)
+        if field is None:
+            continue
+        if "{" in (spec or ""):
+            raise OutsideSubset("str.format with a nested replacement field in the format spec")
+        head = field.split(".")[0].split("[")[0]
+        if head != field:
+            raise OutsideSubset("str.format with attribute / item access in a replacement field")
+        if field == "":
+            val, auto = args[auto], auto + 1
+        elif field.isdigit():
+            val = args[int(field)]
+        else:
+            if field not in kwargs:
+                raise PyRaise(KeyError(field))
+            val = kwargs[field]
+        val = interp.resolve(val)
+        conversion = ord(conv) if conv else -1
+        if not is_sym(val) and all_concrete(val):
+            v = repr(val) if conv == "r" else str(val) if conv == "s" else val
+            try:
+                parts.append(format(v, spec or ""))
+            except Exception as exc:  # noqa: BLE001
+                raise PyRaise(exc) from None
+        else:
+            p = format_value(interp, val, spec or "", conversion)
+            parts.extend(p.parts if isinstance(p, FStr) else [p])
+    if all(isinstance(p, str) for p in parts):
+        return "".join(parts)
+    return FStr(parts)
+
+
+METHOD_MODELS[(str, "format")] = _str_format
 
 
 # ================================================================================================
